@@ -193,6 +193,13 @@ func (x *Exec) startPath() {
 
 // resetPath clears per-path state; call at the start of every explored path.
 func (x *Exec) resetPath() {
+	if os.Getenv("SYMX_DEBUG") != "" {
+		x.M.Mem.OnOOB = func(what string) {
+			for f := x.curFrame; f != nil; f = f.caller {
+				fmt.Fprintf(os.Stderr, "  oob in %s\n", f.fn)
+			}
+		}
+	}
 	x.globals = map[*ssa.Global]*core.Alloc{}
 	x.strConst = map[string]*core.Alloc{}
 	x.funcAddr = map[*ssa.Function]uint64{}
